@@ -594,7 +594,15 @@ static void applyDefaultStoreEnv(const Cell &c)
 
 static void fillTls(const Cell &c, TransportConfig::TlsConfig &t, TlsMode mode)
 {
-  if (c.s("tlscfg", "enabled") == "enabled") { t.enabled = true; t.defaultMode = mode; }
+  // tlscfg: how the TLS block of the configuration relates to the TLS mode the session asks for
+  //   enabled     enabled=true,  defaultMode = the requested mode      (a TLS context exists)
+  //   disabled    enabled=false                                        (no context)
+  //   mode-none   enabled=true,  defaultMode = None (the default)      (no context: initTls builds one only for the matching mode)
+  //   mode-other  enabled=true,  defaultMode = the opposite role       (no context)
+  string tc = c.s("tlscfg", "enabled");
+  if (tc == "enabled") { t.enabled = true; t.defaultMode = mode; }
+  else if (tc == "mode-none") { t.enabled = true; t.defaultMode = TlsMode::None; }
+  else if (tc == "mode-other") { t.enabled = true; t.defaultMode = (mode == TlsMode::Client ? TlsMode::Server : TlsMode::Client); }
   t.verifyPeer = c.is("verify", "on");
   if (!c.file("cafile").empty()) t.caFile = g_pki.cert(c.file("cafile"));
   if (!c.file("capath").empty()) t.caPath = g_pki.p(c.file("capath"));
